@@ -439,6 +439,9 @@ fn main_long(mut trace: Trace) {
             script.push_back(("data".into(), k));
             p += k;
         }
+        if with_err && !err_put {
+            script.push_back(("err".into(), 0)); // the error position fell into the last chunk
+        }
         script.push_back(("eof".into(), 0));
         let nscript = script.len();
         let want = frames(codec, &input, scale, 255);
